@@ -102,7 +102,12 @@ pub fn linear_from_oklab(lab: [f64; 3]) -> [f64; 3] {
     let l = mul(&inv(&OK_M2), lab);
     mul(&inv(&OK_M1), [l[0].powi(3), l[1].powi(3), l[2].powi(3)])
 }
-pub fn maxabs3(a: [f64; 3], b: [f64; 3]) -> f64 { (a[0] - b[0]).abs().max((a[1] - b[1]).abs()).max((a[2] - b[2]).abs()) }
+/// largest componentwise difference; NaN-safe: any NaN makes the distance infinite (f64::max would silently drop it)
+pub fn maxabs3(a: [f64; 3], b: [f64; 3]) -> f64 {
+    let d = [(a[0] - b[0]).abs(), (a[1] - b[1]).abs(), (a[2] - b[2]).abs()];
+    if d.iter().any(|x| x.is_nan()) { return f64::INFINITY; }
+    d[0].max(d[1]).max(d[2])
+}
 /// does the 8-bit value `got` equal round-to-nearest of `v` clamped to 0..255 (either neighbour within `slack` of a tie)?
 pub fn q_round_ok(got: u8, v: f64, slack: f64) -> bool {
     if v.is_nan() { return got == 0; }
